@@ -239,4 +239,473 @@ theorem rows_sorted_by_criterion (cfg : Cfg) (all : List Cand) :
     obtain ⟨j, _, rfl⟩ := hb
     simp at hw
 
+/-- Ranks never decrease along the rows. -/
+theorem ranks_nondecreasing (cfg : Cfg) (all : List Cand) :
+    (rankModels cfg all).Pairwise (fun a b => ∀ k m, a.rank = some k → b.rank = some m → k ≤ m) := by
+  have hsorted := rows_sorted_by_criterion cfg all
+  rw [List.pairwise_iff_getElem] at hsorted ⊢
+  intro i j hi hj hij k m hk hm
+  obtain ⟨c, v, _, _, _, hv, _, hkk⟩ := ranked_row_spec cfg all _ k (List.getElem_mem hi) hk
+  obtain ⟨c', w, _, _, _, hw, _, hmm⟩ := ranked_row_spec cfg all _ m (List.getElem_mem hj) hm
+  have hle := hsorted i j hi hj hij _ _ hv hw
+  have : (rankModels cfg all).countP (Row.better (v + c.pen)) ≤ (rankModels cfg all).countP (Row.better (w + c'.pen)) := by
+    apply List.countP_mono_left
+    intro y _ hy
+    unfold Row.better at hy ⊢
+    cases hyv : y.rv with
+    | nan => simp [hyv] at hy
+    | num z => simp [hyv] at hy ⊢; grind
+  omega
+
+/-! ## the model reported as best -/
+
+/-- **best_is_top.**  If no model is eligible nothing is reported as best.
+    Otherwise the model picked by `summary_tool['rank'].idxmin()` is the first
+    row of the frame; it has rank 1, is eligible, and no ranked model has a
+    smaller criterion value. -/
+theorem best_is_top (cfg : Cfg) (all : List Cand) :
+    ((∀ r ∈ rankModels cfg all, r.rank = none) → bestModel (rankModels cfg all) = none) ∧
+    (∀ r, r ∈ rankModels cfg all → r.rank.isSome = true →
+      ∃ top rest v, rankModels cfg all = top :: rest ∧ bestModel (rankModels cfg all) = some top.idx ∧
+        top.rank = some 1 ∧ top.rv = .num v ∧
+        (∃ c, all[top.idx]? = some c ∧ Eligible cfg all top.idx c) ∧
+        ∀ s ∈ rankModels cfg all, ∀ w, s.rv = .num w → v ≤ w) := by
+  constructor
+  · intro h
+    unfold bestModel
+    rw [idxminAux_none _ h]; rfl
+  · intro r hr hsome
+    have hfa := failed_never_above cfg all
+    have hsorted := rows_sorted_by_criterion cfg all
+    cases hrows : rankModels cfg all with
+    | nil => rw [hrows] at hr; cases hr
+    | cons top rest =>
+      rw [hrows] at hfa hsorted hr
+      rw [List.pairwise_cons] at hfa hsorted
+      -- the first row is ranked, otherwise every row is unranked
+      have htop : top.rank.isSome = true := by
+        cases ht : top.rank with
+        | some k => rfl
+        | none =>
+          exfalso
+          rcases List.mem_cons.mp hr with rfl | hr'
+          · rw [ht] at hsome; cases hsome
+          · have := hfa.1 r hr' ht
+            rw [this] at hsome; cases hsome
+      obtain ⟨k, hk⟩ := Option.isSome_iff_exists.mp htop
+      have hmem : top ∈ rankModels cfg all := by rw [hrows]; exact List.mem_cons_self ..
+      obtain ⟨c, v, hc, hcv, he, hv, _, hkk⟩ := ranked_row_spec cfg all top k hmem hk
+      -- nothing is strictly better than the first row
+      have hmin : ∀ s ∈ top :: rest, ∀ w, s.rv = .num w → v + c.pen ≤ w := by
+        intro s hs w hw
+        rcases List.mem_cons.mp hs with rfl | hs'
+        · rw [hv] at hw; cases hw; exact Rat.le_refl
+        · exact hsorted.1 s hs' _ _ hv hw
+      have hzero : (rankModels cfg all).countP (Row.better (v + c.pen)) = 0 := by
+        rw [List.countP_eq_zero, hrows]
+        intro s hs
+        unfold Row.better
+        cases hsv : s.rv with
+        | nan => simp
+        | num w => have := hmin s hs w hsv; simp; grind
+      have hk1 : k = 1 := by omega
+      subst hk1
+      refine ⟨top, rest, v + c.pen, rfl, ?_, hk, hv, ⟨c, hc, he⟩, hmin⟩
+      unfold bestModel idxminAux
+      rw [hk]
+      simp only []
+      rw [idxminAux_one]
+      · rfl
+      · intro s hs m hm
+        have hs' : s ∈ rankModels cfg all := by rw [hrows]; exact List.mem_cons_of_mem _ hs
+        obtain ⟨_, _, _, _, _, _, _, h⟩ := ranked_row_spec cfg all s m hs' hm
+        omega
+
+/-! ## base model failed: the NaN-reference branch -/
+
+/-- **nan_reference_branch.**  When the base model has no criterion value
+    (NaN OFV or strictness not fulfilled) it is not ranked, every delta is NaN,
+    and in the non-LRT modes the cut-off is not applied: exactly the models
+    whose strictness holds are ranked (by the criterion itself, see
+    `ranked_row_spec`). -/
+theorem nan_reference_branch (cfg : Cfg) (all : List Cand) (href : refValue all = .nan) :
+    (∀ r ∈ rankModels cfg all, r.delta = .nan) ∧
+    (∀ r ∈ rankModels cfg all, r.idx = 0 → r.rank = none) ∧
+    (cfg.lrt = false → ∀ i c, all[i]? = some c → (Eligible cfg all i c ↔ c.rv ≠ .nan)) := by
+  have hbase : ∀ c, all[0]? = some c → c.rv = .nan := by
+    intro c hc
+    unfold refValue at href
+    cases all with
+    | nil => cases hc
+    | cons b bs =>
+      simp at hc; subst hc
+      simp only [List.head?_cons] at href
+      cases hb : b.rv with
+      | nan => rfl
+      | num v => rw [hb] at href; simp [Val.add] at href
+  refine ⟨?_, ?_, ?_⟩
+  · intro r hr
+    cases hk : r.rank with
+    | some k =>
+      obtain ⟨c, v, _, _, _, _, hd, _⟩ := ranked_row_spec cfg all r k hr hk
+      rw [hd, href]; rfl
+    | none =>
+      unfold rankModels at hr
+      rcases List.mem_append.mp hr with hr | hr
+      · rw [rankedRows_eq, List.mem_map] at hr
+        obtain ⟨p, _, rfl⟩ := hr
+        simp at hk
+      · unfold unrankedRows at hr
+        simp only [List.mem_map] at hr
+        obtain ⟨j, _, rfl⟩ := hr
+        rfl
+  · intro r hr h0
+    cases hk : r.rank with
+    | none => rfl
+    | some k =>
+      exfalso
+      obtain ⟨c, v, hc, hv, _⟩ := ranked_row_spec cfg all r k hr hk
+      rw [h0] at hc
+      rw [hbase c hc] at hv
+      cases hv
+  · intro hl i c hc
+    unfold Eligible
+    constructor
+    · rintro ⟨v, hv, _⟩; rw [hv]; simp
+    · intro hne
+      cases hv : c.rv with
+      | nan => exact absurd hv hne
+      | num v =>
+        refine ⟨v, rfl, ?_⟩
+        by_cases hi : i = 0
+        · subst hi; rw [hbase c hc] at hv; cases hv
+        · refine Or.inr (Or.inr ⟨hl, ?_⟩)
+          intro co r _ hr
+          rw [href] at hr; cases hr
+
+/-! ## likelihood ratio test -/
+
+/-- **lrt_cutoff_sign.**  The critical value is the upper chi-square quantile at
+    `|df|` degrees of freedom, with the sign of `df`; zero for `df = 0`. -/
+theorem lrt_cutoff_sign (isf : Rat → Nat → Rat) (alpha : Rat) (df : Int) :
+    (df = 0 → lrtCutoff isf df alpha = 0) ∧
+    (0 < df → lrtCutoff isf df alpha = isf alpha df.natAbs) ∧
+    (df < 0 → lrtCutoff isf df alpha = -(isf alpha df.natAbs)) := by
+  unfold lrtCutoff
+  refine ⟨fun h => by simp [h], fun h => ?_, fun h => ?_⟩
+  · have h0 : df ≠ 0 := by omega
+    have : df.toNat = df.natAbs := by omega
+    simp [h0, h, this]
+  · have h0 : df ≠ 0 := by omega
+    have h1 : ¬ df > 0 := by omega
+    have : (-df).toNat = df.natAbs := by omega
+    simp [h0, h1, this]
+
+/-- The significance level used by `rank_models` is chosen by the sign of the
+    degrees of freedom: forward level (0.05 / first of the pair) when parameters
+    are added or the count is unchanged, backward level (0.01 / second) when
+    parameters are removed; a single number is used for both. -/
+theorem choose_alpha_sign (df : Int) (c0 c1 co : Rat) :
+    chooseAlpha .none df = (if 0 ≤ df then 5 / 100 else 1 / 100) ∧
+    chooseAlpha (.two c0 c1) df = (if 0 ≤ df then c0 else c1) ∧
+    chooseAlpha (.one co) df = co := by
+  simp [chooseAlpha]
+
+/-- A NaN objective value on either side never passes the test. -/
+theorem lrt_test_nan (isf : Rat → Nat → Rat) (pn cn : Nat) (o : Val) (alpha : Rat) :
+    lrtTest isf pn cn .nan o alpha = false ∧ lrtTest isf pn cn o .nan alpha = false := by
+  cases o <;> simp [lrtTest, Val.sub, Val.ge, Val.le]
+
+/-- The test in terms of the drop in OFV: with added parameters the drop must
+    reach the critical value; with removed parameters the *increase* must not
+    exceed it; with equal counts the child must not be worse. -/
+theorem lrt_test_iff (isf : Rat → Nat → Rat) (pn cn : Nat) (po co alpha : Rat) :
+    (pn < cn → (lrtTest isf pn cn (.num po) (.num co) alpha = true ↔ isf alpha (cn - pn) ≤ po - co)) ∧
+    (cn < pn → (lrtTest isf pn cn (.num po) (.num co) alpha = true ↔ co - po ≤ isf alpha (pn - cn))) ∧
+    (cn = pn → (lrtTest isf pn cn (.num po) (.num co) alpha = true ↔ co ≤ po)) := by
+  unfold lrtTest lrtDf
+  simp only [Val.sub, Val.ge, Val.le, decide_eq_true_eq]
+  refine ⟨fun h => ?_, fun h => ?_, fun h => ?_⟩
+  · have hdf : (0 : Int) < (cn : Int) - (pn : Int) := by omega
+    rw [(lrt_cutoff_sign isf alpha _).2.1 hdf]
+    have : ((cn : Int) - (pn : Int)).natAbs = cn - pn := by omega
+    rw [this]
+  · have hdf : (cn : Int) - (pn : Int) < 0 := by omega
+    rw [(lrt_cutoff_sign isf alpha _).2.2 hdf]
+    have : ((cn : Int) - (pn : Int)).natAbs = pn - cn := by omega
+    rw [this]
+    grind
+  · have hdf : (cn : Int) - (pn : Int) = 0 := by omega
+    rw [(lrt_cutoff_sign isf alpha _).1 hdf]
+    grind
+
+/-- `np.nanargmin` as modelled picks the first index holding the smallest
+    non-NaN value, and fails exactly when there is none. -/
+theorem nanargmin_spec (xs : List Val) :
+    (nanargmin xs = none ↔ ∀ x ∈ xs, x = .nan) ∧ (∀ i, nanargmin xs = some i ↔ IsNanArgmin xs i) := by
+  obtain ⟨h1, h2⟩ := nanargminV_spec xs
+  have huniq : ∀ i k, IsNanArgmin xs i → IsNanArgmin xs k → i = k := by
+    intro i k ⟨v, hv1, hv2, hv3⟩ ⟨w, hw1, hw2, hw3⟩
+    rcases Nat.lt_trichotomy i k with h | h | h
+    · have := hw3 i v h hv1; have := hv2 k w hw1; grind
+    · exact h
+    · have := hv3 k w h hw1; have := hw2 i v hv1; grind
+  refine ⟨⟨?_, ?_⟩, ?_⟩
+  · intro h
+    unfold nanargmin at h
+    cases hr : nanargminV xs with
+    | none => exact h1 hr
+    | some p => simp [hr] at h
+  · intro hall
+    unfold nanargmin
+    cases hr : nanargminV xs with
+    | none => rfl
+    | some p =>
+      obtain ⟨i, v⟩ := p
+      have := (h2 i v hr).1
+      have := hall _ (List.mem_of_getElem? this)
+      cases this
+  · intro i
+    unfold nanargmin
+    constructor
+    · intro h
+      cases hr : nanargminV xs with
+      | none => simp [hr] at h
+      | some p =>
+        obtain ⟨k, v⟩ := p
+        simp [hr] at h; subst h
+        exact ⟨v, h2 k v hr⟩
+    · intro hi
+      cases hr : nanargminV xs with
+      | none =>
+        obtain ⟨v, hv, _⟩ := hi
+        have := h1 hr _ (List.mem_of_getElem? hv)
+        cases this
+      | some p =>
+        obtain ⟨k, v⟩ := p
+        simp only [Option.map_some, Option.some.injEq]
+        exact huniq k i ⟨v, h2 k v hr⟩ hi
+
+/-- **best_of_many_spec.**  With no usable OFV the parent is returned.  Otherwise
+    the candidate with the lowest OFV (the first one among equals) is tested
+    against the parent and returned iff it passes; the parent otherwise. -/
+theorem best_of_many_spec (isf : Rat → Nat → Rat) (pn : Nat) (po : Val) (models : List (Nat × Val)) (alpha : Rat) :
+    ((∀ m ∈ models, m.2 = .nan) → bestOfMany isf pn po models alpha = none) ∧
+    (∀ i, IsNanArgmin (models.map (·.2)) i →
+      ∃ n o, models[i]? = some (n, o) ∧
+        bestOfMany isf pn po models alpha = if lrtTest isf pn n po o alpha = true then some i else none) := by
+  obtain ⟨h1, h2⟩ := nanargmin_spec (models.map (·.2))
+  constructor
+  · intro hall
+    unfold bestOfMany
+    have : nanargmin (models.map (·.2)) = none := h1.mpr (by
+      intro x hx
+      rw [List.mem_map] at hx
+      obtain ⟨m, hm, rfl⟩ := hx
+      exact hall m hm)
+    rw [this]
+  · intro i hi
+    have harg := (h2 i).mpr hi
+    obtain ⟨v, hv, _⟩ := hi
+    rw [List.getElem?_map] at hv
+    cases hm : models[i]? with
+    | none => simp [hm] at hv
+    | some m =>
+      obtain ⟨n, o⟩ := m
+      refine ⟨n, o, rfl, ?_⟩
+      unfold bestOfMany bestOfTwo
+      rw [harg]
+      simp only [hm]
+
+/-! ## information criteria -/
+
+/-- **aic_bic_formulas.**  AIC and the four BIC variants as documented, given the
+    counts; a NaN likelihood stays NaN. -/
+theorem aic_bic_formulas (c : Counts) (o : Rat) :
+    aic c (.num o) = .num (o + 2 * (c.nonfixed : Rat)) ∧
+    bic c (.num o) .mixed = .num (o + ((c.thetaR : Rat) * c.logSubs + (c.thetaF : Rat) * c.logObs)) ∧
+    bic c (.num o) .fixed = .num (o + (c.nonfixed : Rat) * c.logObs) ∧
+    bic c (.num o) .random = .num (o + (c.nonfixed : Rat) * c.logSubs) ∧
+    bic c (.num o) .iiv = .num (o + (c.iivOmegas : Rat) * c.logSubs) ∧
+    aic c .nan = .nan ∧ (∀ t, bic c .nan t = .nan) := by
+  simp [aic, bic, bicPenalty, Val.add]
+
+/-- **get_rankval.**  NaN when the OFV is NaN or the strictness expression is
+    false; otherwise the criterion selected by the rank type (`lrt` ranks on the
+    OFV). -/
+theorem get_rankval_spec (r : Res) (c : Counts) (s : Option SExpr) :
+    (r.ofv = .nan → ∀ rt, getRankval r c s rt = .ok .nan) ∧
+    (∀ pv, isStrictnessFulfilled r s = .ok pv → truth pv = .ok false → ∀ rt, getRankval r c s rt = .ok .nan) ∧
+    (∀ pv, isStrictnessFulfilled r s = .ok pv → truth pv = .ok true →
+      getRankval r c s .ofv = .ok r.ofv ∧ getRankval r c s .lrt = .ok r.ofv ∧
+      getRankval r c s .aic = .ok (aic c r.ofv) ∧
+      ∀ t, getRankval r c s (.bic (some t)) = .ok (bic c r.ofv t)) := by
+  refine ⟨?_, ?_, ?_⟩
+  · intro h rt
+    simp [getRankval, isStrictnessFulfilled, h, Val.isNan, truth]
+  · intro pv h1 h2 rt
+    simp [getRankval, h1, h2]
+  · intro pv h1 h2
+    simp [getRankval, h1, h2]
+
+/-! ## strictness -/
+
+/-- **strictness_eval.**  As long as `rse` is not rebound to the raw Series
+    (i.e. the expression does not use `rse` together with `rse_theta/omega/sigma`),
+    Python's evaluation of the expression is total and its truth value is the
+    plain boolean denotation of the documented grammar. -/
+theorem strictness_eval (r : Res) (rseRaw : Bool) (e : SExpr)
+    (h : rseRaw = false ∨ e.mentionsN .rse = false) :
+    ∃ v, evalS r rseRaw e = .ok v ∧ truth v = .ok (denote r e) := by
+  induction e with
+  | b a => exact ⟨_, rfl, rfl⟩
+  | cmp a op c =>
+    have : (a == NAttr.rse && rseRaw) = false := by
+      rcases h with h | h
+      · simp [h]
+      · simp [SExpr.mentionsN] at h; simp [h]
+    exact ⟨.bool (cmpAll op (narr r a) c), by simp [evalS, this], rfl⟩
+  | rcmp c op a =>
+    have : (a == NAttr.rse && rseRaw) = false := by
+      rcases h with h | h
+      · simp [h]
+      · simp [SExpr.mentionsN] at h; simp [h]
+    exact ⟨.bool (cmpAll op.flip (narr r a) c), by simp [evalS, this], rfl⟩
+  | and x y ihx ihy =>
+    have hx : rseRaw = false ∨ x.mentionsN .rse = false := by
+      rcases h with h | h
+      · exact Or.inl h
+      · simp [SExpr.mentionsN] at h; exact Or.inr h.1
+    have hy : rseRaw = false ∨ y.mentionsN .rse = false := by
+      rcases h with h | h
+      · exact Or.inl h
+      · simp [SExpr.mentionsN] at h; exact Or.inr h.2
+    obtain ⟨vx, hvx, htx⟩ := ihx hx
+    obtain ⟨vy, hvy, hty⟩ := ihy hy
+    cases hd : denote r x with
+    | true => exact ⟨vy, by simp [evalS, hvx, htx, hd, hvy], by simp [denote, hd, hty]⟩
+    | false => exact ⟨vx, by simp [evalS, hvx, htx, hd], by simp [denote, hd, htx]⟩
+  | or x y ihx ihy =>
+    have hx : rseRaw = false ∨ x.mentionsN .rse = false := by
+      rcases h with h | h
+      · exact Or.inl h
+      · simp [SExpr.mentionsN] at h; exact Or.inr h.1
+    have hy : rseRaw = false ∨ y.mentionsN .rse = false := by
+      rcases h with h | h
+      · exact Or.inl h
+      · simp [SExpr.mentionsN] at h; exact Or.inr h.2
+    obtain ⟨vx, hvx, htx⟩ := ihx hx
+    obtain ⟨vy, hvy, hty⟩ := ihy hy
+    cases hd : denote r x with
+    | true => exact ⟨vx, by simp [evalS, hvx, htx, hd], by simp [denote, hd, htx]⟩
+    | false => exact ⟨vy, by simp [evalS, hvx, htx, hd, hvy], by simp [denote, hd, hty]⟩
+  | not x ih =>
+    have hx : rseRaw = false ∨ x.mentionsN .rse = false := by
+      rcases h with h | h
+      · exact Or.inl h
+      · simp [SExpr.mentionsN] at h; exact Or.inr h
+    obtain ⟨vx, hvx, htx⟩ := ih hx
+    exact ⟨.bool (!denote r x), by simp [evalS, hvx, htx], by simp [denote, truth]⟩
+
+/-- `is_strictness_fulfilled` on a result with an OFV and RSEs, for an expression
+    that does not mix `rse` with the per-class RSE names: total, and true exactly
+    when the denotation is. A NaN OFV always fails; the empty string always passes. -/
+theorem is_strictness_fulfilled_partial (r : Res) (e : SExpr) (hofv : r.ofv.isNan = false)
+    (hrse : r.rse.isNone = false) (hmix : e.mentionsRseClass = false ∨ e.mentionsN .rse = false) :
+    ∃ v, isStrictnessFulfilled r (some e) = .ok v ∧ truth v = .ok (denote r e) := by
+  unfold isStrictnessFulfilled
+  simp only [hofv, hrse, Bool.and_false, Bool.false_eq_true, if_false]
+  exact strictness_eval r _ e hmix
+
+theorem is_strictness_fulfilled_trivial (r : Res) (s : Option SExpr) :
+    (r.ofv = .nan → isStrictnessFulfilled r s = .ok (.bool false)) ∧
+    (r.ofv.isNan = false → isStrictnessFulfilled r none = .ok (.bool true)) := by
+  constructor
+  · intro h; simp [isStrictnessFulfilled, h, Val.isNan]
+  · intro h; simp [isStrictnessFulfilled, h]
+
+/-- The full statement of `is_strictness_fulfilled_partial` is false without the
+    side condition: `rse < 0.4 and rse_theta < 0.3` raises (ValueError: truth value
+    of a Series) although its documented meaning is `True` here. -/
+theorem strictness_rse_mix_witness :
+    isStrictnessFulfilled witnessRes (some (.and (.cmp .rse .lt (4/10)) (.cmp .rseTheta .lt (3/10)))) = .error .valueError ∧
+    denote witnessRes (.and (.cmp .rse .lt (4/10)) (.cmp .rseTheta .lt (3/10))) = true := by
+  constructor
+  · rfl
+  · decide +kernel
+
+/-- `final_zero_gradient_theta` is as documented: some theta gradient is zero or NaN. -/
+theorem fzg_theta_documented (r : Res) :
+    battr r .fzgTheta = (ofClass .theta r.grd).any (fun g => isZero g || g.isNan) := by
+  simp only [battr]
+  induction (ofClass PClass.theta r.grd) with
+  | nil => rfl
+  | cons g gs ih =>
+    simp only [List.any_cons] at ih ⊢
+    rw [← ih]
+    cases isZero g <;> cases g.isNan <;> simp
+
+/-- …but `final_zero_gradient_omega` is not: with a NaN *omega* gradient (and no
+    zero gradient) it is false, and it becomes true when a *theta* gradient is NaN. -/
+theorem fzg_omega_nan_witness :
+    battr witnessRes .fzgOmega = false ∧
+    battr { witnessRes with grd := [(.theta, .nan), (.omega, .num 1), (.sigma, .num 1)] } .fzgOmega = true := by
+  constructor <;> decide +kernel
+
+/-! ## _categorize_parameters -/
+
+/-- **categorize_counts.**  The two classes are disjoint, duplicate free, and
+    characterised independently of the visiting order: random = the estimated
+    omegas plus every parameter occurring in an expression together with an eta;
+    fixed = every parameter occurring in an eta-free expression that is not random. -/
+theorem categorize_spec (omegas : List String) (vs : List Vis) (hn : omegas.Nodup) (x : String) :
+    (x ∈ (categorize omegas vs).2 ↔ x ∈ omegas ∨ ∃ v ∈ vs, v.hasEta = true ∧ x ∈ v.pars) ∧
+    (x ∈ (categorize omegas vs).1 ↔
+      (∃ v ∈ vs, v.hasEta = false ∧ x ∈ v.pars) ∧ x ∉ (categorize omegas vs).2) ∧
+    (categorize omegas vs).1.Nodup ∧ (categorize omegas vs).2.Nodup := by
+  obtain ⟨h2, h1⟩ := categorize_fold vs ([], omegas) x
+  obtain ⟨n1, n2⟩ := categorize_nodup_fold vs ([], omegas) (by simp) hn
+  unfold categorize
+  refine ⟨h2, ?_, n1, n2⟩
+  rw [h1, h2]
+  simp only [List.not_mem_nil, false_or]
+  grind
+
+/-! ## non-vacuity -/
+
+/-- The candidate set of tests/tools/test_run.py (base, m1 failing strictness, m2 = m3 tied, m4 worse):
+    ranks 1, 1, 3, 4 and an unranked last row. -/
+example :
+    (rankModels { lrt := false, cutoff := .none, isf := fun _ _ => 0 }
+      [⟨.num 0, .num 0, 1, 0, 0⟩, ⟨.nan, .num (-5), 2, 0, 0⟩, ⟨.num (-4), .num (-4), 2, 0, 0⟩,
+       ⟨.num (-4), .num (-4), 3, 0, 0⟩, ⟨.num 1, .num 1, 1, 0, 0⟩]).map (fun r => (r.idx, r.rank))
+      = [(2, some 1), (3, some 1), (0, some 3), (4, some 4), (1, none)] := by decide +kernel
+
+/-- `Eligible` is satisfiable by a candidate through each of its three clauses. -/
+example : Eligible { lrt := false, cutoff := .one 1, isf := fun _ _ => 0 }
+    [⟨.num 0, .num 0, 1, 0, 0⟩, ⟨.num (-4), .num (-4), 2, 0, 0⟩] 1 ⟨.num (-4), .num (-4), 2, 0, 0⟩ := by
+  refine ⟨-4, rfl, Or.inr (Or.inr ⟨rfl, ?_⟩)⟩
+  intro co r hco hr
+  simp only [Cutoff.one.injEq] at hco
+  subst hco
+  simp [refValue, Val.add] at hr
+  subst hr
+  decide +kernel
+
+example : Eligible { lrt := true, cutoff := .none, isf := fun _ _ => 3841 / 1000 }
+    [⟨.num 0, .num 0, 1, 0, 0⟩, ⟨.num (-4), .num (-4), 2, 0, 0⟩] 1 ⟨.num (-4), .num (-4), 2, 0, 0⟩ := by
+  refine ⟨-4, rfl, Or.inr (Or.inl ⟨rfl, ?_⟩)⟩
+  decide +kernel
+
+/-- `IsNanArgmin` is satisfiable on a list with NaN entries and a tie. -/
+example : IsNanArgmin [.nan, .num 2, .num 1, .nan, .num 1] 2 := by
+  have : nanargmin [.nan, .num 2, .num 1, .nan, .num 1] = some 2 := by decide +kernel
+  exact ((nanargmin_spec _).2 2).mp this
+
+/-- The hypotheses of `is_strictness_fulfilled_partial` hold for the default strictness of the tools. -/
+example : ∃ v, isStrictnessFulfilled witnessRes
+      (some (.or (.b .minimizationSuccessful) (.and (.b .roundingErrors) (.cmp .sigdigs .ge (1/10))))) = .ok v
+      ∧ truth v = .ok true :=
+  is_strictness_fulfilled_partial witnessRes _ rfl rfl (Or.inl rfl)
+
 end Pharmpy.C19
